@@ -247,7 +247,7 @@ def _prop_fixed_point(case, r):
         if dn <= 2e-14 * scale * (1 + L0.dt * max(np.abs(full(f)).max() for f in eval_all(L0)) / scale):
             break
     else:
-        if dn > 1e-11 * scale:
+        if not np.isfinite(dn) or dn > 1e-11 * scale:
             r.discard('fine sweeper did not reach the collocation solution in 400 sweeps')
             return
     before = [np.array(x, copy=True) for x in L0.u]
